@@ -1,7 +1,10 @@
-(* timeStepFactor f: the bias is awake (updated) only at steps that are multiples of f (colvarmodule::calc_colvars);
-   at the other steps its state, energy and forces are those of its last update.  Run protocol with this rule and the
-   theorem that continuously moving centres are then the scheduled centres of the LAST UPDATED step not beyond the end of
-   the schedule - in particular they stop short of the target when targetNumSteps is not a multiple of f. *)
+(* timeStepFactor f: the bias is awake (updated) only at steps that are multiples of f (colvarmodule::calc_colvars); at the
+   other steps its state, energy and forces are those of its last update.  The schedule tests of
+   colvarbias_restraint_centers_moving::update carry the factor: a continuous schedule is updated while
+   step - first < N + f with lambda = min(step - first, N)/N (the last update may fall after the end and brings the centres
+   to their targets), a staged one moves at the first awake step at or after the first step of a stage
+   ((step - first - 1) mod N < f).  For f = 1 these are the tests of RestraintModel.centers_update.
+   Theorem: continuously moving centres are, after any history, the scheduled centres of the last updated step. *)
 From Coq Require Import ZArith List Bool Lia.
 From CV Require Import Base.Num C06.RestraintModel C06.RestraintSched.
 Import ListNotations.
@@ -9,22 +12,151 @@ Local Open Scope Z_scope.
 
 Section TSF.
   Context {T : Type} (O : NumOps T).
-  Notation rcfg := (@rcfg T). Notation mstate := (@mstate T). Notation event := (@event T).
+  Notation rcfg := (@rcfg T). Notation rstate := (@rstate T). Notation mstate := (@mstate T). Notation event := (@event T).
 
+  (* colvarbias_restraint_centers_moving::update with time_step_factor = f *)
+  Definition centers_update_tsf (f : Z) (c : rcfg) (s : rstate) (t rel : Z) (cont : bool) : rstate :=
+    if c_chg_centers c then
+      let s1 :=
+        if negb (c_nstages c =? 0) then
+          if s_stage s <=? c_nstages c then
+            if first_time rel cont && (s_first s <? t) && (Z.rem (t - s_first s - 1) (c_nsteps c) <? f)
+            then let s' := update_centers O c s (ratio O (s_stage s) (c_nstages c)) in set_stage s' (s_stage s + 1)
+            else set_incr s (zeros O (s_incr s))
+          else s
+        else
+          if t - s_first s <? c_nsteps c + f
+          then update_centers O c s (ratio O (Z.min (t - s_first s) (c_nsteps c)) (c_nsteps c))
+          else set_incr s (zeros O (s_incr s)) in
+      if rel =? 0 then set_incr s1 (zeros O (s_incr s1)) else s1
+    else s.
+
+  (* f = 1: the tests of the model without the factor *)
+  Lemma centers_update_tsf_1 c s t rel cont : 0 < c_nsteps c ->
+    centers_update_tsf 1 c s t rel cont = centers_update O c s t rel cont.
+  Proof.
+    intros HN. unfold centers_update_tsf, centers_update.
+    destruct (c_chg_centers c); [|reflexivity].
+    destruct (negb (c_nstages c =? 0)).
+    - destruct (s_stage s <=? c_nstages c); [|reflexivity].
+      destruct (first_time rel cont); cbn [andb]; [|reflexivity].
+      destruct (s_first s <? t) eqn:E; cbn [andb]; [|reflexivity].
+      apply Z.ltb_lt in E.
+      assert (H : (Z.rem (t - s_first s - 1) (c_nsteps c) <? 1) = (Z.rem (t - s_first s - 1) (c_nsteps c) =? 0)).
+      { rewrite Z.rem_mod_nonneg by lia. pose proof (Z.mod_pos_bound (t - s_first s - 1) (c_nsteps c) HN).
+        destruct (_ =? 0) eqn:E0; [apply Z.eqb_eq in E0; apply Z.ltb_lt; lia | apply Z.eqb_neq in E0; apply Z.ltb_ge; lia]. }
+      rewrite H. reflexivity.
+    - assert (H : (t - s_first s <? c_nsteps c + 1) = (t - s_first s <=? c_nsteps c)).
+      { destruct (t - s_first s <=? c_nsteps c) eqn:E; [apply Z.leb_le in E; apply Z.ltb_lt; lia | apply Z.leb_gt in E; apply Z.ltb_ge; lia]. }
+      rewrite H. destruct (t - s_first s <=? c_nsteps c) eqn:E; [|reflexivity].
+      apply Z.leb_le in E. rewrite Z.min_l by lia. reflexivity.
+  Qed.
+
+  (* colvarbias_restraint_k_moving::update with time_step_factor = f: a stage ends at the first awake step at or after its
+     last step ((t - first) mod N < f); the continuous change is updated while t - first < N + f with lambda clamped *)
+  Definition k_update_tsf (f : Z) (c : rcfg) (s : rstate) (t rel : Z) (cont : bool) (xs : list T) : rstate * option (T * T) :=
+    if c_chg_k c then
+      if negb (c_nstages c =? 0) then
+        let s1 :=
+          if t =? s_first s then
+            let lam0 := match c_lambda_sched c with
+                        | [] => if c_decoupling c then n1 O else n0 O
+                        | l0 :: _ => l0 end in
+            set_k s (k_of_lambda O c lam0) (s_kincr s) (s_stage s) (s_FE s)
+          else s in
+        let lam := stage_lambda O c (s_stage s1) in
+        let s2 :=
+          if (s_first s1 <? t) && first_time rel cont &&
+             ((c_equil c =? 0) || (Z.rem (t - s_first s1) (c_nsteps c) >=? c_equil c))
+          then set_k s1 (s_k s1) (s_kincr s1) (s_stage s1)
+                     (nadd O (s_FE s1) (nmul O (dlambda_factor O c lam) (dUdk_sum O c s1 xs)))
+          else s1 in
+        if (Z.rem (t - s_first s2) (c_nsteps c) <? f) && (s_first s2 <? t) && first_time rel cont then
+          let line := (lam, ndiv O (s_FE s2) (nofZ O (c_nsteps c - c_equil c))) in
+          if s_stage s2 <? c_nstages c then
+            let g := s_stage s2 + 1 in
+            (set_k s2 (k_of_lambda O c (stage_lambda O c g)) (s_kincr s2) g (n0 O), Some line)
+          else (s2, Some line)
+        else (s2, None)
+      else if t - s_first s <? c_nsteps c + f then
+        let l := ratio O (Z.min (t - s_first s) (c_nsteps c)) (c_nsteps c) in
+        let lam := if c_decoupling c then nsub O (n1 O) l else l in
+        let k := k_of_lambda O c lam in
+        (set_k s k (nsub O k (s_k s)) (s_stage s) (s_FE s), None)
+      else (set_k s (s_k s) (n0 O) (s_stage s) (s_FE s), None)
+    else (s, None).
+
+  Lemma k_update_tsf_centers f c s t rel cont xs : s_centers (fst (k_update_tsf f c s t rel cont xs)) = s_centers s.
+  Proof. unfold k_update_tsf. split_ifs; reflexivity. Qed.
+  Lemma k_update_tsf_first f c s t rel cont xs : s_first (fst (k_update_tsf f c s t rel cont xs)) = s_first s.
+  Proof. unfold k_update_tsf. split_ifs; reflexivity. Qed.
+
+  Lemma k_update_tsf_1 c s t rel cont xs : 0 < c_nsteps c ->
+    k_update_tsf 1 c s t rel cont xs = k_update O c s t rel cont xs.
+  Proof.
+    intros HN. unfold k_update_tsf, k_update.
+    destruct (c_chg_k c); [|reflexivity].
+    destruct (negb (c_nstages c =? 0)).
+    - set (s1 := if t =? s_first s then _ else s).
+      set (s2 := if (s_first s1 <? t) && _ && _ then _ else s1).
+      assert (H : (Z.rem (t - s_first s2) (c_nsteps c) <? 1) && (s_first s2 <? t) = (Z.rem (t - s_first s2) (c_nsteps c) =? 0) && (s_first s2 <? t)).
+      { destruct (s_first s2 <? t) eqn:E; [|rewrite !andb_false_r; reflexivity]. rewrite !andb_true_r.
+        apply Z.ltb_lt in E. rewrite Z.rem_mod_nonneg by lia.
+        pose proof (Z.mod_pos_bound (t - s_first s2) (c_nsteps c) HN).
+        destruct ((t - s_first s2) mod c_nsteps c =? 0) eqn:E0; [apply Z.eqb_eq in E0; apply Z.ltb_lt; lia | apply Z.eqb_neq in E0; apply Z.ltb_ge; lia]. }
+      rewrite H. reflexivity.
+    - assert (H : (t - s_first s <? c_nsteps c + 1) = (t - s_first s <=? c_nsteps c)).
+      { destruct (t - s_first s <=? c_nsteps c) eqn:E; [apply Z.leb_le in E; apply Z.ltb_lt; lia | apply Z.leb_gt in E; apply Z.ltb_ge; lia]. }
+      rewrite H. destruct (t - s_first s <=? c_nsteps c) eqn:E; [|reflexivity].
+      apply Z.leb_le in E. rewrite Z.min_l by lia. reflexivity.
+  Qed.
+
+  Lemma tsf_one c s t rel cont xs : 0 < c_nsteps c ->
+    centers_update_tsf 1 c s t rel cont = centers_update O c s t rel cont /\
+    k_update_tsf 1 c s t rel cont xs = k_update O c s t rel cont xs.
+  Proof. intros H. split; [apply centers_update_tsf_1 | apply k_update_tsf_1]; exact H. Qed.
+
+  (* one update of the restraint with the factor (rstep with centers_update_tsf and k_update_tsf), and the run protocol *)
+  Definition rstep_tsf (f : Z) (c : rcfg) (s : rstate) (t rel : Z) (cont : bool) (xs : list T) : rstate * rout :=
+    let s1 := centers_update_tsf f c s t rel cont in
+    let '(s2, line) := k_update_tsf f c s1 t rel cont xs in
+    let tm := terms O c s2 xs in
+    let forces := map (@frc3 T) tm in
+    let s3 := work_centers O c s2 t rel forces in
+    let s4 := work_k O c s3 rel xs in
+    (s4, mkOut (sumT O (map (@pot3 T) tm)) forces line).
   Definition mstep_tsf (f : Z) (c : rcfg) (m : mstate) (e : event) : mstate :=
-    if ev_it m e mod f =? 0 then mstep O c m e
+    if ev_it m e mod f =? 0
+    then let '(s1, o) := rstep_tsf f c (ev_s0 O c m e) (ev_it m e) (ev_it m e - ev_itr m e) (ev_cont e) (ev_xs e) in
+         mkM (ev_it m e) (ev_itr m e) false s1 (m_outs m ++ [(ev_it m e, s1, o)])
     else mkM (ev_it m e) (ev_itr m e) false (ev_s0 O c m e) (m_outs m).
   Definition run_tsf (f : Z) (c : rcfg) (evs : list event) : mstate := fold_left (mstep_tsf f c) evs (init_m O c).
 
-  (* the last updated step that is not beyond the end of the schedule *)
-  Definition last_update (f : Z) (c : rcfg) (t : Z) : Z := f * (Z.min t (c_it0 c + c_nsteps c) / f).
+  Lemma rstep_tsf_centers f c s t rel cont xs :
+    s_centers (fst (rstep_tsf f c s t rel cont xs)) = s_centers (centers_update_tsf f c s t rel cont) /\
+    s_first (fst (rstep_tsf f c s t rel cont xs)) = s_first (centers_update_tsf f c s t rel cont).
+  Proof.
+    unfold rstep_tsf.
+    pose proof (k_update_tsf_centers f c (centers_update_tsf f c s t rel cont) t rel cont xs) as Hc.
+    pose proof (k_update_tsf_first f c (centers_update_tsf f c s t rel cont) t rel cont xs) as Hf.
+    destruct (k_update_tsf f c (centers_update_tsf f c s t rel cont) t rel cont xs) as [s2 line]; cbn [fst] in *.
+    destruct (work_k_fields O c (work_centers O c s2 t rel (map (@frc3 T) (terms O c s2 xs))) rel xs) as [A1 [_ [A3 _]]].
+    destruct (work_centers_fields O c s2 t rel (map (@frc3 T) (terms O c s2 xs))) as [B1 [_ [B3 _]]].
+    rewrite A1, A3, B1, B3. split; assumption.
+  Qed.
+
+  Lemma centers_update_tsf_first f c s t rel cont : s_first (centers_update_tsf f c s t rel cont) = s_first s.
+  Proof. unfold centers_update_tsf. split_ifs; reflexivity. Qed.
+
+  (* the last updated step *)
+  Definition last_update (f : Z) (t : Z) : Z := f * (t / f).
 
   Definition inv_tsf (f : Z) (c : rcfg) (m : mstate) : Prop :=
     s_first (m_st m) = c_it0 c /\ c_it0 c <= m_it m /\
     (m_fresh m = true -> m = init_m O c) /\
     (m_fresh m = false ->
-       (c_it0 c <= last_update f c (m_it m) -> s_centers (m_st m) = closed_centers O c (last_update f c (m_it m))) /\
-       (last_update f c (m_it m) < c_it0 c -> s_centers (m_st m) = c_centers0 c)).
+       (c_it0 c <= last_update f (m_it m) -> s_centers (m_st m) = closed_centers O c (last_update f (m_it m))) /\
+       (last_update f (m_it m) < c_it0 c -> s_centers (m_st m) = c_centers0 c)).
 
   Lemma div_same a f : 0 < f -> 0 < a -> a mod f <> 0 -> a / f = (a - 1) / f.
   Proof.
@@ -43,65 +175,62 @@ Section TSF.
     assert (Hs0c : s_centers (ev_s0 O c m e) = s_centers (m_st m)) by (apply ev_s0_centers; exact Hc).
     assert (Hs0f : s_first (ev_s0 O c m e) = c_it0 c) by (rewrite ev_s0_first; assumption).
     assert (Ht0 : c_it0 c <= t) by lia.
-    (* centres before this event, in terms of t *)
-    assert (Hprev : m_fresh m = false -> t mod f <> 0 \/ c_nsteps c < t - c_it0 c ->
-              (c_it0 c <= last_update f c t -> s_centers (m_st m) = closed_centers O c (last_update f c t)) /\
-              (last_update f c t < c_it0 c -> s_centers (m_st m) = c_centers0 c)).
-    { intros Hnf Hcase. destruct (Icen Hnf) as [J1 J2].
-      assert (Hlu : last_update f c t = last_update f c (m_it m)).
-      { destruct Hit' as [E | [E _]]; [rewrite E; reflexivity|]. unfold last_update.
-        destruct Hcase as [Hm | Hend].
-        - destruct (Z_le_gt_dec t (c_it0 c + c_nsteps c)) as [L | G].
-          + rewrite !Z.min_l by lia. rewrite E in *. f_equal. replace (m_it m) with (m_it m + 1 - 1) at 2 by lia.
-            apply div_same; lia.
-          + rewrite !Z.min_r by lia. reflexivity.
-        - rewrite !Z.min_r by lia. reflexivity. }
-      rewrite Hlu. split; assumption. }
     unfold mstep_tsf. fold t.
     destruct (t mod f =? 0) eqn:Em.
-    - (* awake: a regular update at step t *)
+    - (* awake *)
       apply Z.eqb_eq in Em.
-      destruct (mstep_unfold O c m e) as [Hit [_ [Hst _]]]. fold t in Hit, Hst.
-      unfold inv_tsf. rewrite Hit, Hst, rstep_first, mstep_not_fresh, Hs0f.
+      assert (Hlu : last_update f t = t).
+      { unfold last_update. pose proof (Z.div_mod t f ltac:(lia)). lia. }
+      destruct (rstep_tsf_centers f c (ev_s0 O c m e) t (t - ev_itr m e) (ev_cont e) (ev_xs e)) as [Rc Rf].
+      destruct (rstep_tsf f c (ev_s0 O c m e) t (t - ev_itr m e) (ev_cont e) (ev_xs e)) as [s1 o]; cbn [fst] in Rc, Rf.
+      unfold inv_tsf. cbn [m_st m_it m_fresh]. rewrite Rf, centers_update_tsf_first, Hs0f, Rc, Hlu.
       split; [reflexivity|]. split; [exact Ht0|]. split; [discriminate|]. intros _.
-      rewrite rstep_centers. unfold centers_update. rewrite Hc, Hn. cbn [Z.eqb negb]. rewrite Hs0f.
-      destruct (t - c_it0 c <=? c_nsteps c) eqn:Ele.
-      + apply Z.leb_le in Ele.
-        assert (Hlu : last_update f c t = t).
-        { unfold last_update. rewrite Z.min_l by lia. pose proof (Z.div_mod t f ltac:(lia)). lia. }
-        rewrite Hlu.
-        assert (Hcc : s_centers (update_centers O c (ev_s0 O c m e) (ratio O (t - c_it0 c) (c_nsteps c))) = closed_centers O c t).
-        { unfold update_centers, closed_centers, sched_lambda. cbn [s_centers]. rewrite Z.min_l by lia. reflexivity. }
-        split; [intros _ | intros Hlt; lia].
+      split; [intros _ | intros Hlt; lia].
+      unfold centers_update_tsf. rewrite Hc, Hn. cbn [Z.eqb negb]. rewrite Hs0f.
+      destruct (t - c_it0 c <? c_nsteps c + f) eqn:Ele.
+      + assert (Hcc : s_centers (update_centers O c (ev_s0 O c m e) (ratio O (Z.min (t - c_it0 c) (c_nsteps c)) (c_nsteps c))) = closed_centers O c t).
+        { unfold update_centers, closed_centers, sched_lambda. cbn [s_centers]. reflexivity. }
         destruct (_ =? 0); [cbn [set_incr s_centers]|]; exact Hcc.
-      + apply Z.leb_gt in Ele.
+      + apply Z.ltb_ge in Ele.
         assert (Hnf : m_fresh m = false).
         { destruct (m_fresh m) eqn:F; auto. exfalso. rewrite (Ifr eq_refl) in Hit'. cbn [init_m m_it m_fresh] in Hit'.
           destruct Hit' as [H | [_ H]]; [lia | discriminate]. }
-        destruct (Hprev Hnf (or_intror Ele)) as [J1 J2].
+        destruct (Icen Hnf) as [J1 _].
+        (* the previous update was at t - f (or at t itself), already beyond the end of the schedule *)
+        assert (Hprev : c_it0 c <= last_update f (m_it m) /\ c_nsteps c <= last_update f (m_it m) - c_it0 c).
+        { destruct Hit' as [E | [E _]].
+          - rewrite <- E. fold t. rewrite Hlu. lia.
+          - unfold last_update. assert (Hq : (m_it m) / f = t / f - 1).
+            { pose proof (Z.div_mod t f ltac:(lia)) as D1. rewrite Em in D1.
+              assert (m_it m = f * (t / f - 1) + (f - 1)) by lia.
+              symmetry. apply (Z.div_unique_pos (m_it m) f (t / f - 1) (f - 1)); lia. }
+            rewrite Hq. pose proof (Z.div_mod t f ltac:(lia)) as D1. rewrite Em in D1. nia. }
+        destruct Hprev as [P1 P2].
         assert (Hsame : forall s', s_centers (if t - ev_itr m e =? 0 then set_incr (set_incr (ev_s0 O c m e) s') (zeros O (s_incr (set_incr (ev_s0 O c m e) s'))) else set_incr (ev_s0 O c m e) s') = s_centers (m_st m)).
         { intros s'. destruct (_ =? 0); cbn [set_incr s_centers]; exact Hs0c. }
-        rewrite Hsame. split; assumption.
-    - (* asleep: nothing is updated *)
+        rewrite Hsame, (J1 P1). unfold closed_centers, sched_lambda.
+        rewrite (Z.min_r (last_update f (m_it m) - c_it0 c)) by lia. rewrite (Z.min_r (t - c_it0 c)) by lia. reflexivity.
+    - (* asleep *)
       apply Z.eqb_neq in Em. unfold inv_tsf. cbn [m_st m_it m_fresh].
       split; [exact Hs0f|]. split; [exact Ht0|]. split; [discriminate|]. intros _.
       rewrite Hs0c.
       destruct (m_fresh m) eqn:F.
-      + (* first event at a step that is not a multiple of f: the configured centres *)
-        rewrite (Ifr eq_refl) in *. cbn [init_m m_it m_st init_state s_centers m_fresh] in *.
+      + rewrite (Ifr eq_refl) in *. cbn [init_m m_it m_st init_state s_centers m_fresh] in *.
         assert (Ht : t = c_it0 c) by (destruct Hit' as [H | [_ H]]; [exact H | discriminate]).
-        assert (Hlt : last_update f c t < c_it0 c).
-        { unfold last_update. rewrite Ht, Z.min_l by lia.
-          pose proof (Z.div_mod (c_it0 c) f ltac:(lia)). pose proof (Z.mod_pos_bound (c_it0 c) f Hf). rewrite Ht in Em. lia. }
+        assert (Hlt : last_update f t < c_it0 c).
+        { unfold last_update. rewrite Ht. pose proof (Z.div_mod (c_it0 c) f ltac:(lia)). pose proof (Z.mod_pos_bound (c_it0 c) f Hf). rewrite Ht in Em. lia. }
         split; [intros H; lia | intros _; reflexivity].
-      + apply (Hprev eq_refl). left. exact Em.
+      + assert (Hlu : last_update f t = last_update f (m_it m)).
+        { destruct Hit' as [E | [E _]]; [rewrite E; reflexivity|]. unfold last_update. rewrite E in *. f_equal.
+          replace (m_it m) with (m_it m + 1 - 1) at 2 by lia. apply div_same; lia. }
+        rewrite Hlu. exact (Icen eq_refl).
   Qed.
 
   Lemma center_schedule_tsf f c evs :
     0 < f -> c_chg_centers c = true -> c_nstages c = 0 -> 0 <= c_nsteps c -> 0 <= c_it0 c -> evs <> [] ->
     let m := run_tsf f c evs in
-    (c_it0 c <= last_update f c (m_it m) -> s_centers (m_st m) = closed_centers O c (last_update f c (m_it m))) /\
-    (last_update f c (m_it m) < c_it0 c -> s_centers (m_st m) = c_centers0 c).
+    (c_it0 c <= last_update f (m_it m) -> s_centers (m_st m) = closed_centers O c (last_update f (m_it m))) /\
+    (last_update f (m_it m) < c_it0 c -> s_centers (m_st m) = c_centers0 c).
   Proof.
     intros Hf Hc Hn HN H0 Hne m.
     assert (H : inv_tsf f c m).
@@ -110,6 +239,6 @@ Section TSF.
       - rewrite fold_left_app. cbn [fold_left]. apply inv_tsf_step; assumption. }
     destruct H as [_ [_ [_ Hcen]]]. apply Hcen.
     unfold m, run_tsf. destruct (exists_last Hne) as [l [e ->]]. rewrite fold_left_app. cbn [fold_left].
-    unfold mstep_tsf. destruct (_ =? 0); [apply mstep_not_fresh | reflexivity].
+    unfold mstep_tsf. destruct (_ =? 0); [destruct (rstep_tsf _ _ _ _ _ _ _)|]; reflexivity.
   Qed.
 End TSF.
